@@ -8,8 +8,8 @@ import (
 type SimTimer struct {
 	when   int64
 	seq    uint64
-	f      func()           // AfterFunc callback (runs as a new task)
-	fire   func(now int64)  // channel timers: non-blocking send performed by the callback task
+	f      func()          // AfterFunc callback (runs as a new task)
+	fire   func(now int64) // channel timers: non-blocking send performed by the callback task
 	active bool
 	idx    int
 	// edge re-creates the happens-before edge "arm → callback start" that the
@@ -110,7 +110,7 @@ func (s *Sim) armTimer(t *SimTimer, d int64) {
 	t.seq = s.timerSeq
 	t.active = true
 	s.timerPush(t)
-	s.Counts["probe:timer-armed"]++
+	s.Count("probe:timer-armed")
 }
 
 // Stop has the contract of time.Timer.Stop: false if the timer already fired or was stopped.
@@ -122,7 +122,7 @@ func (t *SimTimer) Stop() bool {
 //go:norace
 func (s *Sim) stopTimer(t *SimTimer) bool {
 	if !t.active {
-		s.Counts["probe:timer-stop-too-late"]++
+		s.Count("probe:timer-stop-too-late")
 		return false
 	}
 	t.active = false
@@ -148,7 +148,7 @@ func (s *Sim) fireNextTimer() {
 	if t.when > s.now {
 		s.now = t.when
 	}
-	s.Counts["probe:timer-fired"]++
+	s.Count("probe:timer-fired")
 	s.mix(0x7171 ^ t.seq)
 	s.spawn("timer:"+t.name, "timer:"+t.name, timerBody(t))
 }
